@@ -836,6 +836,8 @@ def r6_honest_injectors(ctx, F):
         if bad:
             ctx.violation("injector-value|%s" % fname, fn.loc(), "%s: %s" % (fname, bad))
     U32S = [0, 1, 2, 3, 5, 6, 0x80000000, 0xFFFFFFFF, 0xFFFF0000, 0x0000FFFF, 0x7FFFFFFF, 0xFFFFFFFE, 0x00010000, 0x12345678, 0xF0F0F0F0]
+    if ctx.tier == "thorough":
+        U32S += [1 << k for k in range(2, 32)] + [(1 << k) - 1 for k in range(2, 32)] + [0xFFFFFFFF ^ (1 << k) for k in range(32)] + [0xFFFFFFFF << k & 0xFFFFFFFF for k in range(1, 32)]
     for fname, op in (("push_leading_zeros", "leading_zeros"), ("push_trailing_zeros", "trailing_zeros"), ("push_leading_ones", "leading_ones"), ("push_trailing_ones", "trailing_ones")):
         fn = F.fn(INJ + fname + "$")
         ctx.inst(key=fname, nontrivial=True)
@@ -847,7 +849,7 @@ def r6_honest_injectors(ctx, F):
            lambda env: [env["s0"].bit_length() - 1] if env["s0"] else None)
     fn = F.fn(INJ + "push_u64_div_result$")
     ctx.inst(key="push_u64_div_result", nontrivial=True)
-    L = [0, 1, 2, 0xFFFFFFFF, 0x80000000, 0x12345678]
+    L = [0, 1, 2, 0xFFFFFFFF, 0x80000000, 0x12345678] + ([3, 0xFFFF, 0x10000, 0x7FFFFFFF, 0xFFFFFFFE] if ctx.tier == "thorough" else [])
     envs = [{"s0": bh, "s1": bl, "s2": ah, "s3": al} for bh in (0, 1, 0xFFFFFFFF, 0x9ABCDEF0) for bl in L for ah in (0, 3, 0xFFFFFFFF, 0x0FEDCBA9) for al in L]
     envs += [{"s0": 2 ** 32, "s1": 1, "s2": 1, "s3": 1}, {"s0": 1, "s1": 2 ** 32, "s2": 1, "s3": 1}, {"s0": 1, "s1": 1, "s2": 2 ** 32 + 5, "s3": 1}, {"s0": 1, "s1": 1, "s2": 1, "s3": execmodel.P_ - 1}]
 
